@@ -236,15 +236,42 @@ def _unit(args):
         wall = h.unit_wall_s[tier] if isinstance(h.unit_wall_s,
                                                  dict) else h.unit_wall_s
         npfacade.EXACT_CONST_SQRT = bool(h.exact_const_sqrt)
-        with npfacade.inject(*mods, names=names):
-            try:
-                core.explore(lambda ctx: h.sym(ctx, cfg), timeout_ms=tmo,
-                             max_paths=h.max_paths, div_mode=h.div_mode,
-                             stats=st, wall_s=wall, on_path=on_path,
-                             logic=h.logic)
-            except core.BoundExceeded as e:
-                out['unknown'].append(dict(name='bound-exceeded',
-                                           detail=str(e)))
+        # hard watchdog: the per-path deadline is only looked at around
+        # solver calls; pure-Python polynomial work (a changed tree can
+        # produce huge expressions) would otherwise run until the outer
+        # timeout and take the concrete oracle runs of the unit with it
+        import signal
+
+        class _HardCap(BaseException):
+            pass
+
+        def _on_alarm(signum, frame):
+            raise _HardCap()
+        old_handler = None
+        try:
+            old_handler = signal.signal(signal.SIGALRM, _on_alarm)
+            signal.alarm(int(wall * 1.25) + 30)
+        except (ValueError, AttributeError):     # not in a main thread
+            old_handler = None
+        try:
+            with npfacade.inject(*mods, names=names):
+                try:
+                    core.explore(lambda ctx: h.sym(ctx, cfg), timeout_ms=tmo,
+                                 max_paths=h.max_paths, div_mode=h.div_mode,
+                                 stats=st, wall_s=wall, on_path=on_path,
+                                 logic=h.logic)
+                except core.BoundExceeded as e:
+                    out['unknown'].append(dict(name='bound-exceeded',
+                                               detail=str(e)))
+        except _HardCap:
+            out['unknown'].append(dict(
+                name='bound-exceeded',
+                detail='hard wall-clock cap of the work unit (%d s) reached '
+                'outside a solver call' % (int(wall * 1.25) + 30)))
+        finally:
+            if old_handler is not None:
+                signal.alarm(0)
+                signal.signal(signal.SIGALRM, old_handler)
         out['paths'] = st.paths
         out['decisions'] = st.decisions
         out['stats'] = st.as_dict()
